@@ -23,6 +23,9 @@ pub enum P13 {
     CpRoute { x: u128, y: u128, fees: FeeSpec, offer: u128, tol: Option<u128>, hops: u8 },
     /// constant-product deposit with liquidity_max_slippage
     CpDeposit { x: u128, y: u128, d0: u128, d1: u128, tol: Option<u128> },
+    /// single-asset deposit (uom) into a constant-product pool: its deposit leg (half the amount + the proceeds of the
+    /// inner swap) is a constant-product deposit and must obey liquidity_max_slippage against the pool the inner swap leaves
+    CpSingleDeposit { x: u128, y: u128, fees: FeeSpec, amount: u128, liq_tol: Option<u128>, swap_tol: Option<u128> },
     /// stableswap swap asset0->asset1 (or reverse) evaluated under the whole tolerance ladder, on the pool
     /// and on its economically identical twins in other decimals
     SsSwap { amp: u64, tokens_milli: Vec<u128>, offer_milli: u128, rev: bool, fees: FeeSpec },
@@ -206,6 +209,56 @@ fn eval(w: &mut World, p: &P13, rec: &mut Rec) -> bool {
             }
             true
         }
+        P13::CpSingleDeposit { x, y, fees, amount, liq_tol, swap_tol } => {
+            if !setup_pool(w, &[6, 6], &[*x, *y], None, fees) {
+                rec.count("c13_setup_refused");
+                return false;
+            }
+            let s0 = w.snapshot();
+            let (a, pma) = (w.users[A].clone(), w.pool_manager.clone());
+            let out = w.exec(&a, &pma, &pm::ExecuteMsg::ProvideLiquidity { liquidity_max_slippage: liq_tol.map(dec), swap_max_slippage: swap_tol.map(dec), receiver: None, pool_identifier: "o.g".into(), unlocking_duration: None, lock_position_identifier: None }, &[coin(*amount, "uom")]);
+            rec.outcome("CpSingleDeposit", out.class());
+            if !out.is_ok() && w.app.storage().data != s0.storage.data {
+                rec.viol("C13_failed_deposit_changed_state", format!("{:?}", p));
+            }
+            // the inner swap on a copy of the state, as the depositor would do it
+            w.restore(&s0);
+            let half = *amount / 2;
+            let b0 = w.balance(&a, "uusd");
+            let sw = exec_swap(w, ("uom", half), "uusd", *swap_tol, None);
+            if !sw.is_ok() {
+                rec.count("c13_single_inner_swap_refused");
+                if out.is_ok() {
+                    rec.viol("C13_single_deposit_despite_refused_swap", format!("{:?}: the inner swap of {half} uom is refused under this swap tolerance ({}) but the single-asset deposit was accepted", p, sw.err_text()));
+                }
+                w.restore(&s0);
+                return true;
+            }
+            let got = w.balance(&a, "uusd") - b0;
+            let Some(pi) = observe_pool(w, "o.g") else { return false };
+            let r = |d: &str| pi.pool_info.assets.iter().find(|c| c.denom == d).map(|c| c.amount.u128()).unwrap_or(0);
+            let (x1, y1) = (r("uom"), r("uusd"));
+            w.restore(&s0);
+            let Some(t) = liq_tol else {
+                return true; // without a deposit tolerance nothing is promised here (C14 compares the two paths)
+            };
+            if *t > E18 || got == 0 || half == 0 {
+                return true;
+            }
+            let om = big(E18 - *t);
+            let den = big(E18);
+            let within = |a: u128, b: u128, pa: u128, pb: u128, eps: i64| -> bool { big(a) * &om * big(pb) * &den <= big(pa) * big(b) * &den * (big(E18) + eps) / BigInt::from(1) };
+            let must_accept = within(half, got, x1, y1, -4) && within(got, half, y1, x1, -4);
+            let must_reject = !within(half, got, x1, y1, 4) || !within(got, half, y1, x1, 4);
+            rec.count(if must_accept { "c13_single_must_accept" } else if must_reject { "c13_single_must_reject" } else { "c13_single_dont_care_band" });
+            if must_reject && out.is_ok() {
+                rec.viol_kf("C13_out_of_tolerance_deposit_accepted", format!("{:?}", p), format!("{:?}: after the inner swap the pool holds {x1}/{y1} and the deposit leg is {half} uom + {got} uusd, outside the deposit tolerance, but the single-asset deposit was accepted", p));
+            }
+            if must_accept && !out.is_ok() {
+                rec.viol("C13_in_tolerance_deposit_refused", format!("{:?}: deposit leg {half}/{got} against {x1}/{y1} is within the tolerance but the single-asset deposit was refused: {}", p, out.err_text()));
+            }
+            true
+        }
         P13::SsSwap { amp, tokens_milli, offer_milli, rev, fees } => {
             // the same economic pool in several decimals; decision vectors over the tolerance ladder
             let ladder: Vec<Option<u128>> = vec![Some(0), Some(E18 / 1000), None, Some(E18 / 20), Some(E18 / 2), Some(E18)];
@@ -356,6 +409,16 @@ pub fn points(tier: Tier) -> Vec<P13> {
                     }
                     for o in [x / 1000 + 1, x / 100 + 1, x / 10 + 1] {
                         v.push(P13::CpSwap { x: *x, y: *y, fees: f.clone(), offer: o, tol, belief: Some(b) });
+                    }
+                }
+            }
+        }
+        // single-asset deposits: deposit tolerance x swap tolerance (independent of each other)
+        for f in [zero_fees(), std_fees()] {
+            for amount in [*x / 5 + 1, *x / 50 + 1, *x / 1000 + 2] {
+                for liq_tol in [None, Some(E18 / 1000), Some(E18 / 100), Some(E18 / 50), Some(E18 / 5), Some(E18 / 2)] {
+                    for swap_tol in [None, Some(E18 / 5), Some(E18 / 2)] {
+                        v.push(P13::CpSingleDeposit { x: *x, y: *y, fees: f.clone(), amount, liq_tol, swap_tol });
                     }
                 }
             }
